@@ -297,6 +297,7 @@ type brow struct {
 type vedge struct {
 	Cand Pos  `json:"cand"`
 	Ret  bool `json:"ret"`
+	New  bool `json:"new"` // IsNew(cand) asked just before the Set (ret && new = the voteproof was TAKEN, not only filled in)
 	To   int  `json:"to"`
 }
 
@@ -418,13 +419,14 @@ func relation(fl map[string]string) error {
 		n.Cap = f.posOf(hd.Last().Cap())
 		for _, c := range cands {
 			hd, _ := build(n.Ivp, n.Avp)
+			isnew := hd.IsNew(f.vp(c))
 			ret := hd.Set(f.vp(c))
 			l := hd.Last()
 			to, ok := ids[f.posOf(l.INIT()).key()+"|"+f.posOf(l.ACCEPT()).key()]
 			if !ok {
 				return fmt.Errorf("handler left the domain: %v %v", f.posOf(l.INIT()), f.posOf(l.ACCEPT()))
 			}
-			n.Out = append(n.Out, vedge{Cand: c, Ret: ret, To: to})
+			n.Out = append(n.Out, vedge{Cand: c, Ret: ret, New: isnew, To: to})
 		}
 		outV.Emit(n)
 	}
